@@ -3,7 +3,10 @@
 set -e
 br=$1; shift; P=$1; shift
 cd /verif
-git merge --no-edit -q $br >/dev/null 2>&1 || true
+git add -A; git commit -qm "wip before integrating $br" 2>/dev/null || true
+if ! git merge --no-edit -q $br >/tmp/merge.out 2>&1; then
+  if ! git diff --name-only --diff-filter=U | grep -q .; then echo "MERGE FAILED:"; cat /tmp/merge.out; exit 1; fi
+fi
 /venv/bin/python harness/genindex.py --findings
 git add -A
 if git diff --name-only --diff-filter=U | grep -q .; then echo "CONFLICTS:"; git diff --name-only --diff-filter=U; exit 1; fi
